@@ -798,3 +798,18 @@ Theorem sampler_subset_explicit ss A choices A' :
 Proof.
   intros H. apply (Forall2_impl (sampled_of ss)); [apply sampled_of_subset | exact (sampler_subset _ _ _ _ H)].
 Qed.
+
+(** A BinaryCrossEntropy output layer with several channels applies independent sigmoids: its rows are not
+    probability distributions (here 3 channels, every entry 1/2). *)
+Theorem probability_rows_bce_multi_refuted :
+  exists (expf : Q -> Q) (L : layer) (A : smat) (F : feats),
+    (forall x, 0 < expf x) /\ l_act L = BinaryCrossEntropyLoss /\ l_out L = 3%nat /\
+    exists row, In row (forward (fun x => x) expf L A F) /\ ~ sumq row == 1.
+Proof.
+  exists (fun _ => 1),
+         {| l_norm := NLeft; l_self := true; l_use_bias := false; l_act := BinaryCrossEntropyLoss; l_out := 3;
+            l_weight := [[0; 0; 0]]; l_bias := [] |},
+         [[]], (Dense 1 [[0]]).
+  split; [intros; reflexivity|]. split; [reflexivity|]. split; [reflexivity|].
+  eexists. split; [left; reflexivity|]. vm_compute. discriminate.
+Qed.
